@@ -33,6 +33,10 @@ pub struct Entry {
     pub layout: fn() -> String,
     /// value term -> schema rows and bytes of `serialize_with_schema`, `debug`/`to_csv` outcomes
     pub schema: fn(&Term) -> String,
+    /// value term, loader, flags -> stored file, loaded structure, backing region
+    pub load: Option<fn(&Term, &str, u32) -> String>,
+    /// bytes of a (corrupted) file, loader, repetitions -> growth of live heap bytes and mappings
+    pub leak: Option<fn(&[u8], &str, usize) -> String>,
     /// value term, base residue -> allocator calls / bytes during deserialize_eps, and the result
     pub alloc: Option<fn(&Term, usize) -> String>,
     /// value term, writer spec -> result and bytes accepted by a faulty writer
@@ -217,7 +221,7 @@ fn xxh3() -> xxhash_rust::xxh3::Xxh3 {
 pub fn entry<T>(rust_name: &'static str) -> Entry
 where
     T: 'static + Serialize + SerializeInner + Deserialize + FromTerm + Show + TypeHash + AlignHash,
-    for<'a> DeserType<'a, T>: Show,
+    for<'a> DeserType<'a, T>: Show + Send + Sync,
 {
     Entry {
         rust_name,
@@ -245,6 +249,11 @@ where
             None => "badterm".into(),
         },
         rchunk: Some(ops::rchunk_generic::<T>),
+        load: Some(|t, loader, flags| match catch(|| T::from_term(t)) {
+            Some(v) => ops::load_generic::<T>(&v, loader, flags),
+            None => "badterm".into(),
+        }),
+        leak: Some(ops::leak_generic::<T>),
         alloc: Some(|t, r| match catch(|| T::from_term(t)) {
             Some(v) => match ser_generic(&v) {
                 Ok((_, bytes)) => alloc_generic::<T>(&bytes, r),
@@ -260,7 +269,7 @@ where
 pub fn entry_z<T>(rust_name: &'static str) -> Entry
 where
     T: 'static + Serialize + SerializeInner + Deserialize + FromTerm + Show + TypeHash + AlignHash + ZeroCopy,
-    for<'a> DeserType<'a, T>: Show,
+    for<'a> DeserType<'a, T>: Show + Send + Sync,
 {
     let mut e = entry::<T>(rust_name);
     e.layout = || {
